@@ -548,6 +548,7 @@ def assemble(repo: str, template_path: str, prop: Optional[str] = None) -> Assem
     tpl = open(template_path, encoding="utf-8").read().split("\n")
     out: List[str] = []
     units: List[UnitInfo] = []
+    skipped: List[str] = []
     i = 0
     name = os.path.basename(template_path)
     while i < len(tpl):
@@ -560,6 +561,7 @@ def assemble(repo: str, template_path: str, prop: Optional[str] = None) -> Assem
             except OSError as e:
                 raise ExtractError("cannot include %s: %s" % (inc, e))
             base = len(out)
+            skipped.extend(getattr(sub, 'skipped', []))
             for u in sub.units:
                 u.asm_start += base
                 u.asm_end += base
@@ -598,7 +600,12 @@ def assemble(repo: str, template_path: str, prop: Optional[str] = None) -> Assem
                     out.append("// optional unit skipped: %s" % e)
                     i = j + 1
                     continue
-                raise
+                # a unit that cannot be extracted (lost anchor) is left out and reported undecided; the other units of
+                # the template are still checked (units only see each other through shims)
+                out.append("// unit not extracted: %s" % str(e).replace("\n", " "))
+                skipped.append(str(e))
+                i = j + 1
+                continue
             info.asm_start = len(out) + 1
             out.extend(text.split("\n"))
             info.asm_end = len(out)
@@ -607,4 +614,6 @@ def assemble(repo: str, template_path: str, prop: Optional[str] = None) -> Assem
             continue
         out.append(ln)
         i += 1
-    return Assembled("\n".join(out), units, name)
+    a = Assembled("\n".join(out), units, name)
+    a.skipped = skipped
+    return a
